@@ -755,7 +755,7 @@ func raceLibraryAccess(rep string) string {
 		for _, m := range raceFrame.FindAllStringSubmatch(st[1], -1) {
 			fn := m[1]
 			if strings.HasPrefix(fn, libPrefix) {
-				return strings.TrimPrefix(strings.TrimPrefix(fn, libPrefix), ".")
+				return strings.TrimLeft(strings.TrimPrefix(fn, libPrefix), "./")
 			}
 			first := fn
 			if i := strings.Index(first, "/"); i >= 0 {
